@@ -62,6 +62,35 @@ def gen_cases(tier, rng):
         exp = 'reject' if common else 'vi0=[%s];vi1=[%s]' % (','.join(map(str, la)), ','.join(map(str, lb)))
         cases.append('H:f=0 arg:a:vi0: arg:b:vi1: con:disjoint:a;b %s exp:%s mut:%s'
                      % (A.argv_tok(w), exp, 'break-value-constraint' if common else 'none'))
+    # one argument under a requirement of a and an exclusion of b at the same time (and the two on different
+    # arguments): a, b in both orders, then every subset of c, d - the pending entries of one argument are all
+    # looked at, in whatever order they were stored
+    for ra, xb in itertools.product('cd', repeat=2):
+        defs = 'arg:a:b0:init=0/req=%s arg:b:b1:init=0/excl=%s arg:c:i0: arg:d:i1:' % (ra, xb)
+        for first in ('ab', 'ba'):
+            for used in itertools.product([0, 1], repeat=2):
+                tail = [nm for nm, u_ in zip('cd', used) if u_]
+                for tl in (tail, tail[::-1]):
+                    w = ['-' + first[0], '-' + first[1]] + [x for nm in tl for x in ('-' + nm, '5')]
+                    ok = ra in tl and xb not in tl
+                    if ok:
+                        exp = 'b0=1;b1=1;' + ';'.join('i%d=%d' % (j, 5 if nm in tl else 0) for j, nm in enumerate('cd'))
+                        cases.append('H:f=0 %s %s exp:%s mut:none' % (defs, A.argv_tok(w), exp))
+                    else:
+                        cases.append('H:f=0 %s %s exp:reject mut:%s' % (defs, A.argv_tok(w),
+                                     'excluded-after' if xb in tl else 'required-missing'))
+        # every order of a, b and the arguments they refer to (the model decides, no expectation given)
+        for perm in itertools.permutations(['a', 'b', 'c', 'd']):
+            w = [x for nm in perm for x in (('-' + nm,) if nm in 'ab' else ('-' + nm, '7'))]
+            cases.append('H:f=0 %s %s' % (defs, A.argv_tok(w)))
+    # an argument of an all_of / any_of / one_of list that may be used several times (no cardinality limit, a
+    # container, multi-value): every use counts as the one argument it is
+    for con_, members in (('all_of', 'v;n'), ('all_of', 'n;v;f'), ('one_of', 'v;f'), ('any_of', 'v;f')):
+        defs = 'arg:v:vi0: arg:n:i0:card=none arg:f:b0:init=0 con:%s:%s' % (con_, members)
+        for w in (['-v', '1', '-v', '2'], ['-v', '1', '-v', '2', '-n', '3'], ['-n', '1', '-n', '2'], ['-n', '1', '-n', '2', '-v', '4'],
+                  ['-v', '1', '-v', '2', '-v', '3'], ['-v', '1,2', '-n', '5', '-f'], ['-v', '1', '-n', '2', '-v', '3', '-n', '4', '-f'],
+                  ['-f'], ['-v', '1', '-f'], ['-n', '1']):
+            cases.append('H:f=0 %s %s' % (defs, A.argv_tok(w)))
     # exhaustive small scope for constraint lists that share entries: flags a and b with two-entry requires /
     # excludes lists over the int arguments c, d, e (every ordered pair for each), a and b used in both orders, then
     # every subset of c, d, e.  Accepted exactly when all required arguments are used / no excluded argument is used.
